@@ -2,6 +2,7 @@
 (* Emits the hand-written foreign-key families of FkCases. *)
 EXTENDS FkCases
 VARIABLE i
+ArmAll == "all"
 Fam == SetToSeq(Families)
 Init == i = 1
 Next == i <= Len(Fam) /\ PrintT(<<"CASE", ToJson(Fam[i])>>) /\ i' = i + 1
